@@ -132,7 +132,17 @@ def verify_function(repo, qual, con, types, contracts, specfuns=None, timeout_ms
                     o1 = [(p, ("ret", v)) for (p, v) in E.ev(node.body, P, cctx)]
                 else:
                     E.index_loops(node)
+                    gen = None
+                    if con.get("yields"):
+                        # A-GEN (engine.call_func): the generator is modelled by the list of the values it yields
+                        gen = E.new_slist(P, con["yields"], "yielded")
+                        d = dict(P.get(frame))
+                        d["yielded"] = gen
+                        P.put(frame, d)
+                        E.assume_used("A-GEN")
                     o1 = E.exec_block(node.body, P, cctx, E.nonlocals_of(node))
+                    if gen is not None:
+                        o1 = [(p, ("ret", gen)) if o[0] in ("ret", "next") else (p, o) for (p, o) in o1]
                 E.func_stack.pop()
                 o1 = list(o1) + [(p, ("exc", nm)) for (p, nm) in E.raised]
                 E.raised = []
